@@ -162,7 +162,7 @@ def _calls_proj(calls):
 
 
 def _exc(ex):
-    return '%s: %s' % (type(ex).__name__, str(ex)[:160])
+    return ('%s: %s' % (type(ex).__name__, str(ex)[:160])).encode('ascii', 'replace').decode()
 
 
 def _stage(ex):
@@ -184,7 +184,7 @@ def do_minspan(R, net_obj, recd, q):
     units, T = q.get('units', 'eV'), q.get('T', 298.15)
     G = R.state_energies(units, T)
     ev = {'ev': 'minspan', 's': q['s'], 'tg': list(q['t']), 'c': int(q.get('c') or 0),
-          'G': [to_dec(g) for g in G], 'raised': '', 'out': [0, 0], 'finite': True}
+          'G': [to_dec(g) for g in G], 'raised': '', 'out': [0, 0], 'finite': True, 'units': units or ''}
     kw = {'T': T}
     if q.get('c'):
         kw['cutoff'] = int(q['c'])
@@ -226,7 +226,7 @@ def do_diagram(R, net_obj, recd, q):
           'G': [to_dec(g) for g in G], 'raised': '', 'stage': '', 'finite': True,
           'maxp': int(q.get('maxp') or 0), 'hasmax': q.get('maxspan') is not None,
           'maxspan': to_dec(q['maxspan']) if q.get('maxspan') is not None else [0, 0],
-          'nums': list(q['nums']) if q.get('nums') else [], 'labels': []}
+          'nums': list(q['nums']) if q.get('nums') else [], 'labels': [], 'delim': q.get('delim', '+')}
     kw = {'T': T, 'show_energy_span': True, 'energy_span_format': '.9e',
           'show_state_table': bool(q.get('table', False))}
     if q.get('c'):
@@ -424,8 +424,8 @@ def _random_net(rnd):
     return {'species': species, 'states': states, 'rx': rx, 'from_string': fs}
 
 
-def _pick_query(rnd, nodes, ists, allow_multi=True):
-    ends = [n for n in nodes if n not in ists] if rnd.random() < 0.85 else list(nodes)
+def _pick_query(rnd, nodes, ists, allow_multi=True, ts_ends=True):
+    ends = [n for n in nodes if n not in ists] if (not ts_ends or rnd.random() < 0.85) else list(nodes)
     if len(ends) < 2:
         ends = list(nodes)
     s = rnd.choice(ends)
@@ -468,10 +468,11 @@ def _exec_random(case):
                        ({x[2] for x in net['rx'] if x[2]} if inc else set()))
         ists = {x[2] for x in net['rx'] if x[2]}
         for _ in range(case['nq']):
-            q = _pick_query(rnd, nodes, ists)
+            diagram = rnd.random() < case['p_diagram']
+            q = _pick_query(rnd, nodes, ists, ts_ends=not diagram)
             q['units'] = rnd.choice(UNITS)
             q['T'] = rnd.choice(T_CHOICES + [rnd.uniform(250.0, 1100.0)])
-            if rnd.random() < case['p_diagram']:
+            if diagram:
                 q['table'] = rnd.random() < 0.25
                 if len(q['t']) == 1 and rnd.random() < 0.3 and len(R.comp[q['s'] - 1]) > 1:
                     q['delim'] = ';'
@@ -551,7 +552,8 @@ def _tlc_cases(ctx, rnd):
                 groups.setdefault((bool(q['c']), len(q['t'])), []).append(q)
             qs = [q for g in sorted(groups) for q in groups[g][:4]]
         qs = [dict(q, tlist=rnd.random() < 0.3,
-                   op='diagram' if (len(q['t']) == 1 and rnd.random() < (0.08 if ctx.quick else 0.15)) else 'minspan')
+                   op='diagram' if (len(q['t']) == 1 and not ({q['s']} | set(q['t'])) & set(c['ts'])
+                                    and rnd.random() < (0.1 if ctx.quick else 0.15)) else 'minspan')
               for q in qs]
         cases.append({'kind': 'path', 'rx': c['rx'], 'inc': c['inc'], 'nodes': c['nodes'],
                       'edges': c['edges'], 'ts': c['ts'], 'qs': qs,
@@ -663,6 +665,7 @@ def run(ctx):
                 cov['build_without_TS'] += 1
             if e['ev'] in ('minspan', 'diagram'):
                 cov['with_cutoff'] += 1 if e['c'] else 0
+                cov['no_units'] += 1 if e.get('units') == '' else 0
                 cov['multi_target'] += 1 if len(e['tg']) > 1 else 0
                 if len(e['calls']) >= 2:
                     cov['queries_with_2plus_pathways'] += 1
